@@ -46,6 +46,11 @@ def main():
         target = meta["property"]
         todo = claimed if allp else (props or [target])
         wt = f"/tmp/seedrun_{sid}_{os.getpid()}"
+        # hold the machine-wide check lock from the first mutated translation to the re-translation from /repo
+        import fcntl
+        lock = open("/tmp/verif_check.lock", "w")
+        fcntl.flock(lock, fcntl.LOCK_EX)
+        os.environ["VERIF_LOCK_HELD"] = "1"
         sh(["git", "-C", "/repo", "worktree", "add", "-q", wt, "HEAD"])
         try:
             r = sh(["git", "-C", wt, "apply", str(d / "patch.diff")])
@@ -91,9 +96,12 @@ def main():
             json.dump(old, open(rf, "w"), indent=1)
         finally:
             sh(["git", "-C", "/repo", "worktree", "remove", "--force", wt])
-    # restore Gen files from the real tree
-    sh(["/venv/bin/python", "tools/translate.py"], cwd=VERIF)
-    sh(["rm", "-rf", str(VERIF / "replays")])
+            # restore Gen files from the real tree before anybody else runs
+            sh(["/venv/bin/python", "tools/translate.py"], cwd=VERIF)
+            fcntl.flock(lock, fcntl.LOCK_UN)
+            lock.close()
+    if not os.environ.get("VERIF_KEEP_REPLAYS"):
+        sh(["rm", "-rf", str(VERIF / "replays")])
 
 
 if __name__ == "__main__":
